@@ -58,7 +58,7 @@ def gen_script(rng, progs, npass, shutdown=None, faults=False, rpcs=True, group_
             dt = -rng.choice([1024, 4096])
         acts = []
         if rng.random() < 0.25:
-            acts.append(('exit', rng.choice(names), rng.choice([0, 0, 1, 2, 3, -9, -15])))
+            acts.append(('exit', rng.choice(names), rng.choice([0, 0, 1, 2, 3, -9, -15, -35, -64, -33])))
         if rng.random() < 0.05:
             for _ in range(rng.randrange(2, 5)):
                 acts.append(('exit', rng.choice(names), rng.choice([0, 1])))
@@ -77,7 +77,7 @@ def gen_script(rng, progs, npass, shutdown=None, faults=False, rpcs=True, group_
             elif m < 0.8:
                 acts.append(('rpc', rid[0], 'supervisor.stopProcess', (tgt, rng.random() < 0.6)))
             elif m < 0.9:
-                acts.append(('rpc', rid[0], 'supervisor.signalProcess', (tgt, rng.choice(['HUP', 'USR1', '15', 'BOGUS']))))
+                acts.append(('rpc', rid[0], 'supervisor.signalProcess', (tgt, rng.choice(['HUP', 'USR1', '15', 'BOGUS', 'STOP', 'STOP', 'CONT']))))
             elif not group_forms:
                 acts.append(('rpc', rid[0], 'supervisor.stopProcess', (tgt, True)))
             elif m < 0.86:
@@ -200,6 +200,7 @@ def mon_c02(ctx, k, inp):
     if k.outcome.startswith('exception') or k.outcome == 'blocked':
         ps = ps[:-1]          # the snapshot taken after the loop died is not a main-loop boundary
     group_of = {p['name']: p.get('group', p['name']) for p in k.programs.values()}
+    inactive = {p.get('group', p['name']) for p in k.programs.values() if p.get('late')}   # groups not in the process table
     orphans = set()     # children of process objects whose group has been removed (only an UNKNOWN process can still have
                         # one: removal requires stopped states); they belong to no current process object any more
     for recs, b in ps:
@@ -217,12 +218,21 @@ def mon_c02(ctx, k, inp):
                 orphans.discard(r['pid'])
                 ctx.count('orphan-of-removed-group-reaped')
                 continue
+            if r['kind'] == 'rpc-answer' and r.get('method') in ('supervisor.removeProcessGroup', 'supervisor.addProcessGroup') and r.get('value') is True:
+                rb2 = next((q for q in recs[:i][::-1] if q['kind'] == 'rpc-begin' and q.get('id') == r.get('id')), None)
+                g2 = rb2['args'][0] if rb2 and rb2.get('args') else None
+                (inactive.add if r['method'].endswith('removeProcessGroup') else inactive.discard)(g2)
+            if r['kind'] == 'fork' and group_of.get(r['name']) in inactive:
+                ctx.violation('fork-for-removed-group', 'child %d forked for %s although its group %s has been removed from the process table' % (
+                    r['pid'], r['name'], group_of.get(r['name'])), inp)
             if r['kind'] == 'fork':
                 if unreaped.get(r['name']):
                     ctx.violation('second-child-forked', 'fork for %s while child(ren) %s not yet reaped' % (r['name'], sorted(unreaped[r['name']])), inp)
                 unreaped.setdefault(r['name'], set()).add(r['pid'])
                 name_of[r['pid']] = r['name']
                 waited.discard(r['pid'])
+            elif r['kind'] == 'wait' and r.get('pid') and r.get('stopped'):
+                ctx.violation('stopped-child-treated-as-exited', 'waitpid was asked for stopped children and reported pid %d, which is alive' % r['pid'], inp)
             elif r['kind'] == 'wait' and r.get('pid'):
                 pid = r['pid']
                 nm = name_of.pop(pid, None)
